@@ -36,6 +36,7 @@ def main(plan_path, out_path):
             prog.write("%s %s\n" % (tr["id"], build))
             prog.flush()
             obs = []
+            objs = []           # the result objects the behaviour keeps
             try:
                 get("reset_all")()
             except Exception as e:
@@ -60,6 +61,18 @@ def main(plan_path, out_path):
                         get("set_%d" % ev["i"])(build_arg(ffi, ev["desc"], [], []))
                     elif op == "readc":
                         o["ret"] = enc(ffi, getattr(lib, ev["name"]))
+                    elif op == "mk":
+                        objs.append(get("mkr")(*[build_arg(ffi, d, [], []) for d in ev["descs"]]))
+                    elif op == "rdobj":
+                        o["ret"] = enc(ffi, objs[ev["j"] - 1])
+                    elif op == "wrobj":
+                        setattr(objs[ev["j"] - 1], "f%d" % ev["f"], build_arg(ffi, ev["desc"], [], []))
+                    elif op == "passobj":
+                        o["ret"] = enc(ffi, get("sumr")(objs[ev["j"] - 1]))
+                    elif op == "same":
+                        o["ret"] = {"k": "pybool", "b": objs[ev["j"] - 1] is objs[ev["k"] - 1]}
+                    elif op == "drop":
+                        objs.pop(0)
                 except Exception as e:
                     o = {"exc": type(e).__name__, "ret": {"k": "none"}} if op != "static" else ["error", type(e).__name__]
                 obs.append(o)
